@@ -6,7 +6,7 @@
   tools/seeded.py confirm <name>|all
         scratch worktree of /repo HEAD under /tmp: demo passes clean, fails with the patch,
         the 518 baseline tests still pass with the patch; worktree removed afterwards
-  tools/seeded.py run <name>|all [--tier quick]
+  tools/seeded.py run <name>|all [--tier quick] [--prop Cxx  (another property's check)]
         git -C /repo apply patch; ./check <property>; git -C /repo checkout -- . ; record outcome
   tools/seeded.py table
         rewrite seeded/README.md from the recorded results
@@ -124,13 +124,14 @@ def cmd_confirm(name):
         shutil.rmtree(wt, ignore_errors=True)
 
 
-def cmd_run(name, tier="quick", in_repo=False):
+def cmd_run(name, tier="quick", in_repo=False, other=None):
     """Run the property's check against the seeded change.  Default: the patch is applied to a
     scratch worktree of /repo HEAD and the check is pointed at it with CNFGEN_REPO (safe while other
     runs use /repo); with --in-repo the patch is applied to /repo itself and undone afterwards."""
     d = os.path.join(SEEDED, name)
     meta = load_meta(name)
-    prop = meta["property"]
+    prop = other or meta["property"]
+    key = tier if not other else "%s@%s" % (tier, other)
     env = dict(os.environ)
     wt = None
     if in_repo:
@@ -165,7 +166,7 @@ def cmd_run(name, tier="quick", in_repo=False):
             shutil.rmtree(wt, ignore_errors=True)
     viol = [l for l in r.stdout.splitlines() if l.startswith("VIOLATION")]
     clauses = [l for l in r.stdout.splitlines() if l.startswith("failing clauses:")]
-    meta.setdefault("checks", {})[tier] = {
+    meta.setdefault("checks", {})[key] = {
         "check": "./check %s --tier %s" % (prop, tier), "applied_to": "/repo" if in_repo else "scratch worktree (CNFGEN_REPO)",
         "exit": r.returncode, "violations": len(viol),
         "first_violation": viol[0] if viol else "", "failing_clauses": clauses[0][len("failing clauses: "):] if clauses else "",
@@ -174,7 +175,7 @@ def cmd_run(name, tier="quick", in_repo=False):
     # the evidence file now describes a run on a mutated tree: restore it from the last commit
     sh(["git", "-C", VERIF, "checkout", "--", "evidence/%s.json" % prop])
     print("%s (%s, %s): exit %d, %d VIOLATION lines -> %s" % (name, prop, tier, r.returncode, len(viol),
-                                                            "CAUGHT" if meta["checks"][tier]["caught"] else "MISSED"))
+                                                            "CAUGHT" if meta["checks"][key]["caught"] else "MISSED"))
     if r.returncode == 2:
         print(r.stdout[-1500:])
 
@@ -210,6 +211,6 @@ if __name__ == "__main__":
     elif a[0] == "run":
         tier = a[a.index("--tier") + 1] if "--tier" in a else "quick"
         for n in names(a[1]):
-            cmd_run(n, tier, "--in-repo" in a)
+            cmd_run(n, tier, "--in-repo" in a, a[a.index("--prop") + 1] if "--prop" in a else None)
     elif a[0] == "table":
         cmd_table()
